@@ -484,3 +484,42 @@ package common
 //@         (q in conn.AllowedProtocols && iset(conn.AllowedProtocols[q].Ports) == pre(iset(conn.AllowedProtocols[q].Ports)))
 //@     invariant done: forall q v1.Protocol, n int :: {iset(conn.AllowedProtocols[q].Ports)[n]} {pre(iset(conn.AllowedProtocols[q].Ports)[n])} seen(q) ==>
 //@         ptsP(conn, q, n) == (pre(ptsP(conn, q, n)) && !ptsP(other, q, n))
+// ---------------------------------------------------------------------------------------------
+// named ports of a connection set, and their replacement by the numbers a pod declares (C06, C10)
+// ---------------------------------------------------------------------------------------------
+
+//@ func (*PortSet).GetNamedPortsKeys
+//@   requires p != nil
+//@   ensures [C06,C12] len: len(res) == len(p.NamedPorts)
+//@   ensures [C06] elems: forall i int :: {res[i]} (0 <= i && i < len(res)) ==> (p.NamedPorts != nil && res[i] in p.NamedPorts)
+//@   loop 1:
+//@     invariant idx: index == seencount() && 0 <= index && len(res) == len(p.NamedPorts)
+//@     invariant sub: forall s string :: {seen(s)} seen(s) ==> (p.NamedPorts != nil && s in p.NamedPorts)
+//@     invariant elems: forall i int :: {res[i]} (0 <= i && i < index) ==> (p.NamedPorts != nil && res[i] in p.NamedPorts)
+
+//@ func (*ConnectionSet).GetNamedPorts
+//@   requires wfCS(conn)
+//@   ensures [C06] kept: allKept()
+//@   ensures [C06] fresh: res != nil && fresh(res)
+//@   ensures [C06] sound: forall q v1.Protocol :: {q in res} q in res ==> (q in conn.AllowedProtocols && len(res[q]) > 0
+//@         && (forall i int :: {res[q][i]} (0 <= i && i < len(res[q])) ==> res[q][i] in conn.AllowedProtocols[q].NamedPorts))
+//@   ensures [C06] complete: forall q v1.Protocol, s string :: {s in conn.AllowedProtocols[q].NamedPorts} npts(conn, q, s) ==> q in res
+//@   loop 1:
+//@     invariant kept: allKept()
+//@     invariant fresh: res != nil && fresh(res)
+//@     invariant sub: forall q v1.Protocol :: {seen(q)} seen(q) ==> q in conn.AllowedProtocols
+//@     invariant sound: forall q v1.Protocol :: {q in res} q in res ==> (q in conn.AllowedProtocols && len(res[q]) > 0
+//@         && (forall i int :: {res[q][i]} (0 <= i && i < len(res[q])) ==> res[q][i] in conn.AllowedProtocols[q].NamedPorts))
+//@     invariant complete: forall q v1.Protocol, s string :: {s in conn.AllowedProtocols[q].NamedPorts} (seen(q) && npts(conn, q, s)) ==> q in res
+
+// the named port is dropped from the protocol's port set and (unless the number is NoPort) the number is added; nothing else changes
+//@ func (*ConnectionSet).ReplaceNamedPortWithMatchingPortNum
+//@   requires wfCS(conn) && protocol in conn.AllowedProtocols && (portNum == 0 - 1 || (1 <= portNum && portNum <= 65535))
+//@   modifies iset { r | r == conn.AllowedProtocols[protocol].Ports }
+//@   modifies map[string]bool { m | m == conn.AllowedProtocols[protocol].NamedPorts || m == conn.AllowedProtocols[protocol].ExcludedNamedPorts }
+//@   ensures [C06] wf: wfCS(conn)
+//@   ensures [C06] others: othersKept(conn)
+//@   ensures [C06] nums: forall q v1.Protocol, n int :: {iset(conn.AllowedProtocols[q].Ports)[n]} {old(iset(conn.AllowedProtocols[q].Ports)[n])}
+//@         ptsP(conn, q, n) == (old(ptsP(conn, q, n)) || (q == protocol && portNum != 0 - 1 && n == portNum))
+//@   ensures [C06] names: forall q v1.Protocol, s string :: {s in conn.AllowedProtocols[q].NamedPorts}
+//@         npts(conn, q, s) == (old(npts(conn, q, s)) && !(q == protocol && s == namedPort))
